@@ -87,9 +87,8 @@ def correspondence(rep, rng, tier):
     k.ec_info.y = util.Int2Bytes(y)
     return k
   cids = sorted(ec_util.CURVE_FACTORY.keys()) + [0]
-  ec_checks = [es.CheckValidECKey(), es.CheckWeakCurve(), ea.CheckECKeySmallDifference(max_diff=2**8)]
-  if thorough:
-    ec_checks.append(es.CheckWeakECPrivateKey())
+  ec_checks = [es.CheckValidECKey(), es.CheckWeakCurve(), ea.CheckECKeySmallDifference(max_diff=2**8),
+               es.CheckWeakECPrivateKey()]
   for cid in cids:
     c = ec_util.CURVE_FACTORY.get(cid)
     if c is not None:
@@ -101,8 +100,13 @@ def correspondence(rep, rng, tier):
     else:
       pts = [(1, 2), (0, 0), (2**300, 5)]
     batches = [[], [pts[0]], pts[:2], pts]
+    if c is not None:
+      batches += [[(5, 7)], [(p, 1)], [(0, 0), (0, 0)]]     # only invalid points on a supported curve
+    slow_ok = thorough or cid in (cids[0], cids[1], cids[5], 0)
     for bt_ in batches:
       for chk in ec_checks:
+        if chk.check_name == 'CheckWeakECPrivateKey' and not (slow_ok and len(bt_) <= 2):
+          continue
         keys = [eckey(cid, x, y) for x, y in bt_]
         err = raises(chk.Check, keys)
         tried['ec'] += 1
@@ -149,8 +153,15 @@ def correspondence(rep, rng, tier):
              *(rng.choice([(gx, gy), (0, 0), (gx + 1, gy), (2**521, 1)]))) for _ in range(5)],
         [sig(cid, 5, 7, b'abc', gx, gy)] * 3,
     ]
+    if c is not None and (cid == cids[1] or (thorough and cid == cids[2])):
+      # window boundaries of the nonce checks: 24, 25, 48 DISTINCT signatures of one issuer
+      for cnt in ((24, 25, 48) if thorough else (24, 48)):
+        batches.append([sig(cid, rng.randrange(1, n), rng.randrange(1, n),
+                            bytes(rng.getrandbits(8) for _ in range(32)), gx, gy) for _ in range(cnt)])
     for bt_ in batches:
       for chk in sig_checks:
+        if not thorough and chk.check_name.startswith('CheckLCG') and (len(bt_) > 5 or cid not in (cids[1], 0)):
+          continue          # the LCG checks run 120-dimensional LLLs: small batches, two ids
         sigs = [pb.ECDSASignature.FromString(x.SerializeToString()) for x in bt_]
         err = raises(chk.Check, sigs)
         tried['ecdsa'] += 1
